@@ -29,10 +29,13 @@ func lcpLen(ws []string) int {
 }
 
 func TestVerifBoundedTrieSet(t *testing.T) {
-	alphabet := []byte{'a', 'b', 0x00, 0xFF}
-	maxLen, maxSet := 2, 3
+	alphabet := []byte{'a', 'b'}
+	maxLen, maxSet := 3, 3
+	extra := []string{"\x00", "\xff", "a\x00", "\xffb", "a\xff", "\xff\xff\xff", "\x00\x00", "ab\x00"}
 	if os.Getenv("VERIF_TIER") == "thorough" {
-		maxLen, maxSet = 3, 4
+		alphabet = []byte{'a', 'b', 0x00, 0xFF}
+		maxLen, maxSet = 3, 3
+		extra = nil
 	}
 	var words []string
 	var gen func(prefix string, n int)
@@ -48,6 +51,7 @@ func TestVerifBoundedTrieSet(t *testing.T) {
 		}
 	}
 	gen("", maxLen)
+	words = append(words, extra...)
 	queries := append([]string{""}, words...)
 	// one longer query
 	queries = append(queries, "abab", "\xff\xff\xff\xff")
@@ -105,7 +109,7 @@ func TestVerifBoundedTrieSet(t *testing.T) {
 	}
 	seqs(nil)
 	fmt.Printf("BOUNDED evaluations=%d distinct=%d exhaustive=true bound=%q\n", evals, len(distinct),
-		fmt.Sprintf("all insertion sequences (with repeats) of length 1..%d over all %d words of length 1..%d over bytes {a,b,0x00,0xFF}; all %d query prefixes", maxSet, len(words), maxLen, len(queries)))
+		fmt.Sprintf("all insertion sequences (with repeats) of length 1..%d over %d words (all words of length 1..%d over %q plus %q); %d query prefixes", maxSet, len(words), maxLen, alphabet, extra, len(queries)))
 	if fails > 0 {
 		t.Fatalf("%d failures", fails)
 	}
